@@ -600,6 +600,27 @@ def native(seed=0, trials=60):
             if any(not np.array_equal(q_.points, k_) or np.shares_memory(q_.points, r.points) for q_, k_ in zip((a, b, c3), kept)) or (a.name, a.mesh) != ("s", True):
                 bad.append(dict(what=f"Polygon.{nm} wrote to / shares the vertices of one of its items", trial=t))
         if t < 3:
+            # small, finely sampled shapes far from the origin (chip-style absolute coordinates): moving a shape keeps its area and its outline,
+            # whatever the distance from the origin - tolerances relative to the coordinates must not eat vertices
+            for shp, off in ((tdgl.Polygon("c", points=circle(0.2, points=100)), (900.0, 1100.0)), (tdgl.Polygon("e", points=ellipse(0.3, 0.15, points=120)), (-1200.0, 800.0)),
+                             (tdgl.Polygon("b", points=box(0.4, 0.3, points=80)), (5e4, -2e4))):
+                n += 2
+                try:
+                    far = shp.translate(dx=off[0], dy=off[1])
+                    back = far.translate(dx=-off[0], dy=-off[1])
+                    _ = far.area, back.area, far.rotate(30.0, origin=off).area
+                except Exception as e_:  # noqa
+                    bad.append(dict(what="translating / rotating a small finely sampled shape far from the origin raises", shape=shp.name, offset=off, error=f"{type(e_).__name__}: {str(e_)[:120]}"))
+                    continue
+                if abs(far.area - shp.area) > 1e-7 * shp.area or len(far.points) != len(shp.points):
+                    bad.append(dict(what="translating a small finely sampled shape far from the origin changes its area / loses vertices", shape=shp.name, offset=off,
+                                    area=float(shp.area), area_after=float(far.area), vertices=len(shp.points), vertices_after=len(far.points)))
+                elif abs(back.area - shp.area) > 1e-7 * shp.area or len(back.points) != len(shp.points):
+                    bad.append(dict(what="moving a shape far away and back does not restore it", shape=shp.name, offset=off, area=float(shp.area), area_after=float(back.area)))
+                rot = far.rotate(30.0, origin=off)
+                n += 1
+                if abs(rot.area - shp.area) > 1e-7 * shp.area:
+                    bad.append(dict(what="rotating a shape that sits far from the origin about its own centre changes its area", shape=shp.name, offset=off, area=float(shp.area), area_after=float(rot.area)))
             # a small shape whose corners all lie inside a non-convex shape while one of its edges crosses a notch of it
             ell_ = tdgl.Polygon("L", points=np.array([[0, 0], [3, 0], [3, 1], [1, 1], [1, 3], [0, 3]], dtype=float))
             tri = tdgl.Polygon("tri", points=np.array([[0.5, 2.5], [2.5, 0.5], [0.5, 0.5]], dtype=float) + rng.uniform(-0.05, 0.05, 2))
